@@ -189,6 +189,14 @@ def gen_cases(rng, tier):
         rb = ["rec", [nb, F2], [V.S("x"), V.I(1)], M]
         cases.append(_cmp(ra, rb, [], "other"))
         cases.append(_cmp(ra, rb, ["h"], "other"))
+    # grouped records (and plain ones) compared once, then edited through a MEMBER, then compared again
+    eA = ["rec", ["g/a", [["varint", "count"], ["string", "s"]]], [V.I(1), V.S("one")], M]
+    eB = ["rec", ["g/b", [["varint", "y"]]], [V.I(2)], M]
+    ge = ["grouped", "g/edit", [eA, eB]]
+    for ed in ([0, "count", V.I(2)], [1, "y", V.I(9)], [0, "s", V.S("other")]):
+        cases.append(dict(_cmp(ge, ge, [], "grouped"), edit=ed))
+        cases.append(dict(_cmp(ge, ge, ["s"], "grouped"), edit=ed))
+    cases.append(dict(_cmp(eA, eA, [], "vary", 0), edit=[0, "count", V.I(5)]))
     nanr = ["rec", ["t/f", [["float", "f"]]], [["float", "7ff8000000000000"]], M]
     cases.append(_cmp(nanr, nanr, [], "copy"))
     # --- random pairs
@@ -367,6 +375,12 @@ def run_real(case):
                 V._desc_cache.clear() if hasattr(V, "_desc_cache") else None
             b = V.build(case["b"])        # independently rebuilt even when the spec is the same
             B.set_ignored_fields_for_comparison(list(case["ig"]))
+            if case.get("edit"):
+                # the objects were compared and hashed ONCE, then a member of `a` is edited directly: what follows is
+                # about the values they hold now
+                _try(lambda: (a == b, hash(a), hash(b), a in {b}))
+                mi, fname, vspec = case["edit"]
+                setattr(a.records[mi] if hasattr(a, "records") else a, fname, V.build(vspec))
             obs = {
                 "eq_ab": _try(lambda: a == b), "eq_ba": _try(lambda: b == a), "ne_ab": _try(lambda: a != b),
                 "eq_aa": _try(lambda: a == a), "eq_bb": _try(lambda: b == b),
